@@ -97,6 +97,83 @@ func cmdCaps(args []string) error {
 			if r.Panic != "" {
 				rec["panic"] = r.Panic
 			}
+		case "reuse":
+			// {opts: [[kind, min, max, tag]...], steps: [{src, use: [indices]}...], input}: the option VALUES are created once and used by
+			// several compilations in turn ("shared"), then every compilation gets freshly created options ("fresh"); an option is a
+			// description of a capability, so both must behave alike.  Also a history of runs of ONE code: run(input), run(other), run(input).
+			mk := func() []gojq.CompilerOption {
+				os := []gojq.CompilerOption{}
+				for _, o := range c["opts"].([]any) {
+					oo := o.([]any)
+					mn, mx, tag := int(oo[1].(float64)), int(oo[2].(float64)), oo[3].(string)
+					switch oo[0] {
+					case "func":
+						os = append(os, gojq.WithFunction("cf", mn, mx, customFunc(tag)))
+					case "iter":
+						os = append(os, gojq.WithIterFunction("cfi", mn, mx, customIter(tag)))
+					case "vars":
+						os = append(os, gojq.WithVariables([]string{"$" + tag}))
+					case "env":
+						os = append(os, gojq.WithEnvironLoader(func() []string { return []string{"K=" + tag} }))
+					}
+				}
+				return os
+			}
+			runSteps := func(shared bool) []any {
+				all := mk()
+				out := []any{}
+				for _, st := range c["steps"].([]any) {
+					step := st.(map[string]any)
+					if !shared {
+						all = mk()
+					}
+					sel := []gojq.CompilerOption{}
+					for _, i := range step["use"].([]any) {
+						sel = append(sel, all[int(i.(float64))])
+					}
+					q, err := gojq.Parse(step["src"].(string))
+					if err != nil {
+						out = append(out, vlib.M{"perr": err.Error()})
+						continue
+					}
+					code, err := gojq.Compile(q, sel...)
+					if err != nil {
+						out = append(out, vlib.M{"cerr": err.Error()})
+						continue
+					}
+					vals := []any{}
+					for _, i := range step["use"].([]any) {
+						if c["opts"].([]any)[int(i.(float64))].([]any)[0] == "vars" {
+							vals = append(vals, "val")
+						}
+					}
+					r := runCode2(code, vlib.DecVal(c["input"], vlib.RepNative), vals, 100, time.Second)
+					out = append(out, vlib.M{"out": r.Out, "err": r.Err, "long": r.Long, "panic": r.Panic})
+				}
+				return out
+			}
+			rec["shared"], rec["fresh"] = runSteps(true), runSteps(false)
+		case "history":
+			// {src, input, other}: one compiled code run on input, other, input again (and on an equal copy): the outputs for input must be the same each time
+			q, err := gojq.Parse(c["src"].(string))
+			if err != nil {
+				rec["perr"] = err.Error()
+				return
+			}
+			code, err := gojq.Compile(q)
+			if err != nil {
+				rec["cerr"] = err.Error()
+				return
+			}
+			runs := []any{}
+			for _, k := range []string{"input", "other", "input", "other", "input"} {
+				r := runCode(code, vlib.DecVal(c[k], vlib.RepNative), nil, 100, time.Second)
+				runs = append(runs, vlib.M{"on": k, "out": r.Out, "err": r.Err, "long": r.Long, "panic": r.Panic})
+			}
+			fresh, _ := gojq.Compile(q)
+			r := runCode(fresh, vlib.DecVal(c["input"], vlib.RepNative), nil, 100, time.Second)
+			runs = append(runs, vlib.M{"on": "fresh-code", "out": r.Out, "err": r.Err, "long": r.Long, "panic": r.Panic})
+			rec["runs"] = runs
 		case "env":
 			pairs := []string{}
 			cps := []any{}
@@ -206,4 +283,8 @@ func cmdCaps(args []string) error {
 	return runBatch(*in, *out, 8, 8*time.Second, run, func(c map[string]any) map[string]any {
 		return vlib.M{"id": c["id"], "k": c["k"], "hang": true}
 	})
+}
+
+func runCode2(code *gojq.Code, v any, vars []any, maxOut int, budget time.Duration) runResult {
+	return runCode(code, v, vars, maxOut, budget)
 }
